@@ -76,6 +76,11 @@ pub fn run(ctx: &Ctx, rep: &mut Report) {
                             }
                             rep.count("additional-named-option-matches-registry");
                         }
+                        (None, _) if coap_numbers::option::to_name(num).map(|n| reg::norm(n) == reg::norm(&name)).unwrap_or(false) => {
+                            // not in the transcribed table, but the IANA-derived coap-numbers crate knows the number under
+                            // this very name: a registration newer than the table
+                            rep.count("additional-named-option-matches-coap-numbers");
+                        }
                         (None, _) => {
                             rep.violation(viol(
                                 "options",
